@@ -3,4 +3,4 @@ From Verif Require Import Namespace NamespaceSpec.
 Require Extraction ExtrOcamlBasic.
 Extraction Language OCaml.
 Extraction "model.ml" build get_all_types get_all_datatypes get_all_namespaces find_output_path
-  include_path out_path ns_path relative_to_outdir keys get ns_fold same.
+  include_path out_path ns_path relative_to_outdir keys get ns_fold same sort_keys.
